@@ -189,7 +189,16 @@ def structural_names(repo):
     return out
 
 
-STRUCTURAL = [structural_names]
+from contracts.common import structural_signature_key as _sigkey
+STRUCTURAL = [structural_names, _sigkey]
+def _standin(repo, seed, tier):
+    from pyvc.standin import run_standin
+    return run_standin('C17', tier, seed, repo)
+
+
+_standin.tiers = ('quick', 'thorough')
+BOUNDED = [_standin]
+
 NOT_DECIDED = ['parso\'s own token positions (assumed tree geometry, audited)',
                'names without tree position (ImportName/ModuleName report (1, 0)): F14 known-by-design, no contract',
                'is_definition() == "binds" (parso, assumed)']
